@@ -158,7 +158,7 @@ func init() {
 		Rule: "case k draws a single-rooted containment tree (k mod 3: random / deep chain-like / wide star-like; <=10 nodes quick, <=30 thorough; edges stored grouped or split), version 1.4 for even k and 1.5 for odd k, " +
 			"component type, hash algorithm and external-reference type number k forced on the root (harness's own per-version tables), every CycloneDX-expressible attribute independently present, unicode text; " +
 			"the stored edge list is then written in EVERY permutation when it has <=4 edges (thorough: <=5) and in 4 PRNG-chosen permutations otherwise; each output is read back and compared through the projection " +
-			"(node set, root, parent map, per-node attributes, serial number, version, lifecycles at 1.5); a second pass must change nothing. distinct = hash of (written bytes); non-trivial = tree depth >=3.",
+			"(node set, root, parent map, per-node attributes, serial number, version, lifecycles at 1.5); a second pass must change nothing. A quarter of the documents use short identifiers over {a,1,-} that are prefixes, suffixes and concatenations of one another; a quarter of the external-reference lists repeat an entry with other hashes or another comment. distinct = hash of (written bytes); non-trivial = tree depth >=3.",
 		Assumptions: []string{"exactly one native purpose per package node; FILE nodes carry purpose FILE or none; one CPE per node; Metadata.name empty; licence entries are ids; ids unique, non-empty, not starting with protobom-", "license_concluded, suppliers, originators are not compared (not in the statement's attribute list)"},
 		NCases: func(tier string) int {
 			if tier == "thorough" {
